@@ -67,3 +67,25 @@ pub proof fn lemma_first_response_take(id: Seq<char>, rs: Seq<update_check::AppR
         lemma_first_response_take(id, rs.drop_first(), j - 1);
     }
 }
+// ---- restoring an app from its persisted record (App::load / AppSetExt::load) ----
+/// serde_json::from_str::<PersistedApp>: what a stored JSON text decodes to (None: not a PersistedApp)
+pub uninterp spec fn persisted_app_of(json: Seq<char>) -> Option<PersistedApp>;
+/// what App::load leaves in an app given the stored record: only unset fields are filled
+pub open spec fn app_loaded(a: App, p: PersistedApp) -> App {
+    App {
+        cohort: Cohort {
+            id: if a.cohort.id is None { p.cohort.id } else { a.cohort.id },
+            hint: if a.cohort.hint is None { p.cohort.hint } else { a.cohort.hint },
+            name: if a.cohort.name is None { p.cohort.name } else { a.cohort.name },
+        },
+        user_counting: if a.user_counting == UserCounting::ClientRegulatedByDate(None) { p.user_counting } else { a.user_counting },
+        ..a
+    }
+}
+/// what App::load leaves in an app given what storage holds under its id
+pub open spec fn app_load_result(a: App, stored: Option<Seq<char>>) -> App {
+    match stored {
+        Some(json) => match persisted_app_of(json) { Some(p) => app_loaded(a, p), None => a },
+        None => a,
+    }
+}
